@@ -126,4 +126,33 @@ def extractMsg (comb : H → H → H) (zero : H) (msg : Msg H) : Extracted H :=
     let ok := !st.bad && (st.bitsUsed + 7) / 8 == (bits.size + 7) / 8 && st.hashesUsed == hashes.size
     ⟨if ok then some root else none, st.matchedHashes, st.matchedItems, st.bad⟩
 
+/-! ### the `PartialBlock` object: the traversal cursors are fields and survive between calls -/
+
+structure PartialBlock (H : Type) where
+  msg : Msg H
+  st : Ext H := {}
+
+/-- result of `ExtractMatches` from the cursor state `st0` (the checks and the traversal of the method body) -/
+def extractFrom (comb : H → H → H) (zero : H) (msg : Msg H) (st0 : Ext H) : Option H × Ext H :=
+  let bits := (unpackFlags msg.flags).toArray
+  let hashes := msg.hashes.toArray
+  if msg.numTx = 0 then (none, st0)
+  else if msg.numTx > maxTxnCount then (none, st0)
+  else if hashes.size > msg.numTx then (none, st0)
+  else if bits.size < hashes.size then (none, st0)
+  else
+    let (root, st) := traverse comb zero msg.numTx bits hashes (height msg.numTx) 0 st0
+    let ok := !st.bad && (st.bitsUsed + 7) / 8 == (bits.size + 7) / 8 && st.hashesUsed == hashes.size
+    (if ok then some root else none, st)
+
+/-- `(*PartialBlock).ExtractMatches` after fix 35d217e: the cursors are reset first -/
+def PartialBlock.ExtractMatches (comb : H → H → H) (zero : H) (pb : PartialBlock H) : Option H × PartialBlock H :=
+  let (r, st) := extractFrom comb zero pb.msg {}
+  (r, { pb with st := st })
+
+/-- the method as it was before the fix: continues from the cursors the previous call left (negative witness) -/
+def PartialBlock.ExtractMatchesNoReset (comb : H → H → H) (zero : H) (pb : PartialBlock H) : Option H × PartialBlock H :=
+  let (r, st) := extractFrom comb zero pb.msg pb.st
+  (r, { pb with st := st })
+
 end Bch.Model.Merkle
